@@ -61,6 +61,10 @@ META = {
         "(lines slice, character prefix) is carried additively in the line argument and no plain re-assignment between a cut and the call "
         "forgets it; stripping leading blank lines from that text is an uncounted cut. R2 also checks, at every judged convention site, that "
         "the text argument keeps its head (no strip()/lstrip() of newlines, no front slice) while the line argument is unchanged. "
+        "Character/partition cuts must count the whole cut prefix (text before the marker AND the marker). "
+        "R9: the directive-line anchor attributes of the mock classes (those __init__ fills from an L1 parameter: _lineno, lineno) are "
+        "written only in __init__, on an object constructed in the same function, or under a save-before-try / restore-in-finally pair - "
+        "run_directive is re-entrant, so re-positioning a shared state object corrupts the enclosing directive's later lines. "
         "R8: a value returned by a package function that was given a line (L1/P kind) is not stored in a mapping that outlives the call "
         "(module global, attribute, document/env) under a key that omits that line - a replay would carry the first occurrence's lines."
     ),
@@ -85,7 +89,7 @@ META = {
     ],
 }
 
-R1, R2, R3, R4, R5, R6, R7, R8 = "C04.R1", "C04.R2", "C04.R3", "C04.R4", "C04.R5", "C04.R6", "C04.R7", "C04.R8"
+R1, R2, R3, R4, R5, R6, R7, R8, R9 = "C04.R1", "C04.R2", "C04.R3", "C04.R4", "C04.R5", "C04.R6", "C04.R7", "C04.R8", "C04.R9"
 
 
 # ---------------------------------------------------------------------------
@@ -2286,6 +2290,20 @@ def r7_start_accumulator(corpus: Corpus, rep: Report, tier: str):
                     if how == "assign" and v is not None and st is not None:
                         for kind, lower in _head_cuts(v, T, K, fi):
                             cuts.append((st, kind, lower))
+                        # T = after, where  before, found, after = T.partition(sep)  /  before, after = T.split(sep, 1)
+                        if isinstance(v, ast.Name):
+                            for pa in fi.local_nodes():
+                                if not (isinstance(pa, ast.Assign) and len(pa.targets) == 1 and isinstance(pa.targets[0], (ast.Tuple, ast.List)) and isinstance(pa.value, ast.Call) and isinstance(pa.value.func, ast.Attribute)):
+                                    continue
+                                el = pa.targets[0].elts
+                                m_ = pa.value.func.attr
+                                recv = pa.value.func.value
+                                if not (isinstance(recv, ast.Name) and recv.id == T and all(isinstance(e_, ast.Name) for e_ in el)):
+                                    continue
+                                if m_ == "partition" and len(el) == 3 and el[2].id == v.id and pa.value.args:
+                                    cuts.append((st, "partition", (el[0].id, el[1].id, pa.value.args[0])))
+                                elif m_ == "split" and len(el) == 2 and el[1].id == v.id and len(pa.value.args) == 2:
+                                    cuts.append((st, "partition", (el[0].id, None, pa.value.args[0])))
                         for c in ast.walk(v):
                             if isinstance(c, ast.Call) and isinstance(c.func, ast.Attribute) and c.func.attr in ("strip", "lstrip") and isinstance(c.func.value, ast.Name) and c.func.value.id == T:
                                 chars = c.args[0].value if c.args and isinstance(c.args[0], ast.Constant) and isinstance(c.args[0].value, str) else None
@@ -2293,10 +2311,44 @@ def r7_start_accumulator(corpus: Corpus, rep: Report, tier: str):
                                     rep.violation(R7, f"{_key_owner(corpus, fi).fq}|{sink_name}|strips {short(st, 60)}", fi.module.site(st), f"`{short(st, 60)}` strips leading blank lines from the text; their number is not added to `{V}`, so the rest of the file is reported too low")
                 reported: set[int] = set()
                 for st, kind, lower in cuts:
-                    ln = _names(lower)
+                    ln = _names(lower) if kind != "partition" else set()
                     k = f"{_key_owner(corpus, fi).fq}|{sink_name}|cut {short(st, 60)}"
                     csite = fi.module.site(st)
-                    if kind == "lines":
+
+                    def partners_of(st=st):
+                        _lk, _p = _stmt_list_of(st)
+                        feeders = {V} | {nm for _, v, _h in defs_v for nm in _names(v)}
+                        out_ = []
+                        for sib in getattr(_p, _lk[1], []):
+                            tgt = sib.target if isinstance(sib, ast.AugAssign) else (sib.targets[0] if isinstance(sib, ast.Assign) and len(sib.targets) == 1 else None)
+                            if sib is not st and isinstance(tgt, ast.Name) and tgt.id in feeders and tgt.id != T:
+                                out_.append(sib)
+                        return out_
+
+                    def names_star(e_) -> set[str]:
+                        nm_ = _names(e_)
+                        for x_ in list(nm_):
+                            if _owner_of_param(fi, x_) is None:
+                                for _s, v_, h_ in _defs(fi, x_):
+                                    if h_ == "assign" and v_ is not None:
+                                        nm_ |= _names(v_)
+                        return nm_
+
+                    if kind == "partition":
+                        b_, f_, sep_ = lower
+                        ps = partners_of()
+                        if not ps:
+                            rep.violation(R7, k, csite, f"`{short(st, 60)}` keeps only the text after the marker but nothing in the same block adds the number of cut lines to `{V}`: the rest of the file is reported too low")
+                        else:
+                            ns = names_star(ps[0].value)
+                            sep_names = _names(sep_) | ({f_} if f_ else set())
+                            if (b_ in ns and (ns & sep_names)) or (T in ns and isinstance(st.value, ast.Name) and st.value.id in ns):
+                                rep.ok(R7, k, csite, f"text before the marker and the marker itself are counted in `{short(ps[0], 50)}`")
+                            elif b_ in ns:
+                                rep.violation(R7, k, csite, f"`{short(st, 60)}` drops the text before the marker AND the marker `{short(sep_, 20)}` itself, but `{short(ps[0], 50)}` counts only the lines of the part before it: a marker that contains a line break makes every following line one too low")
+                            else:
+                                rep.error(R7, f"{csite}: cannot see which part of the partitioned text `{short(ps[0], 50)}` counts")
+                    elif kind == "lines":
                         flows = V in ln or any(v is not None and (ln & _names(v)) for _, v, _h in defs_v)
                         if flows:
                             rep.ok(R7, k, csite, f"{short(lower, 30)} leading line(s) cut and carried in `{V}`")
@@ -2310,7 +2362,23 @@ def r7_start_accumulator(corpus: Corpus, rep: Report, tier: str):
                             tgt = sib.target if isinstance(sib, ast.AugAssign) else (sib.targets[0] if isinstance(sib, ast.Assign) and len(sib.targets) == 1 else None)
                             if sib is not st and isinstance(tgt, ast.Name) and tgt.id in feeders and tgt.id != T:
                                 partners.append(sib)
-                        if partners:
+                        short_count = None
+                        for pr in partners:
+                            for sl in ast.walk(pr.value):
+                                if isinstance(sl, ast.Subscript) and isinstance(sl.value, ast.Name) and sl.value.id == T and isinstance(sl.slice, ast.Slice) and sl.slice.lower is None and sl.slice.upper is not None:
+                                    def expand1(e_):
+                                        if isinstance(e_, ast.Name) and _owner_of_param(fi, e_.id) is None:
+                                            ds_ = [v_ for _s, v_, h_ in _defs(fi, e_.id) if h_ == "assign" and v_ is not None]
+                                            if len(ds_) == 1 and len(_defs(fi, e_.id)) == 1:
+                                                return ds_[0]
+                                        return e_
+
+                                    up_, lo_ = expand1(sl.slice.upper), expand1(lower)
+                                    if unparse(up_) != unparse(lo_) and not (_names(up_) >= (_names(lo_) - {"len"})):
+                                        short_count = (pr, sl)
+                        if short_count is not None:
+                            rep.violation(R7, k, csite, f"`{short(st, 60)}` cuts the text at `{short(lower, 40)}` but `{short(short_count[0], 50)}` counts the lines of the shorter prefix `{short(short_count[1], 40)}`: line breaks in the remainder of the cut part (the marker) are not counted")
+                        elif partners:
                             rep.ok(R7, k, csite, f"character cut paired with `{short(partners[0], 50)}`")
                         else:
                             rep.violation(R7, k, csite, f"`{short(st, 60)}` cuts a prefix off the text but nothing in the same block adds the number of cut lines to `{V}`: the rest of the file is reported too low")
@@ -2394,7 +2462,101 @@ def r8_line_free_cache(corpus: Corpus, rep: Report, tier: str):
     rep.ok(R8, "package|long-lived caches of line-dependent results", "myst_parser", f"{n} cache store(s) of a line-dependent package call found and judged")
 
 
-RULES = [r1_stamping, r2_line_kinds, r3_shift_once, r4_lossy_round_trip, r5_source_path, r6_body_offset_pairing, r7_start_accumulator, r8_line_free_cache]
+# ---------------------------------------------------------------------------
+# R9 the line anchor of a mock state object is fixed for the directive run it was created for
+
+
+def _line_anchor_attrs(corpus: Corpus, K: "Kinds") -> dict[str, set[str]]:
+    """class fq -> attributes that __init__ fills from an L1-kinded parameter (the directive line the object is anchored at)."""
+    out: dict[str, set[str]] = {}
+    for ci in corpus.all_classes():
+        if not ci.module.name.endswith(".mocking"):
+            continue
+        init = ci.methods.get("__init__")
+        if init is None:
+            continue
+        for n in init.local_nodes():
+            for t, tv in _assign_pairs(n):
+                if isinstance(t, ast.Attribute) and isinstance(t.value, ast.Name) and t.value.id == "self" and isinstance(tv, ast.Name) and tv.id in init.params:
+                    if K.param_kinds(init, tv.id) == frozenset({L1}):
+                        out.setdefault(ci.fq, set()).add(t.attr)
+    return out
+
+
+@rule(R9)
+def r9_anchor_fixed(corpus: Corpus, rep: Report, tier: str):
+    rep.rule(R9, "the directive-line anchor (_lineno / lineno) of a mock state object is written only at construction, on a fresh object, or under a save/restore that brackets the directive run")
+    K = _kinds(corpus)
+    g = get_callgraph(corpus)
+    anchors = _line_anchor_attrs(corpus, K)
+    if not anchors:
+        rep.error(R9, "no line-anchor attribute found in the mock classes")
+        return
+    attr_names = {a for s_ in anchors.values() for a in s_}
+    cls_by_name = {corpus.cls(fq.replace("myst_parser.", "", 1)).name: fq for fq in anchors}
+    for fq, attrs in sorted(anchors.items()):
+        ci = corpus.cls(fq.replace("myst_parser.", "", 1))
+        rep.ok(R9, f"{fq}|anchor {sorted(attrs)} set in __init__", ci.module.site(ci.methods["__init__"].node), "from the 1-based directive line")
+    for fi in _funcs(corpus):
+        for n in fi.local_nodes():
+            if not isinstance(n, (ast.Assign, ast.AugAssign)):
+                continue
+            tgts = []
+            if isinstance(n, ast.Assign):
+                for t in n.targets:
+                    tgts += list(t.elts) if isinstance(t, (ast.Tuple, ast.List)) else [t]
+            else:
+                tgts = [n.target]
+            for t in tgts:
+                if not (isinstance(t, ast.Attribute) and t.attr in attr_names):
+                    continue
+                recv = t.value
+                if isinstance(recv, ast.Name) and recv.id == "self" and fi.name == "__init__":
+                    continue
+                # receiver typed as one of the anchored classes?
+                rt_ = g.expr_type(recv, fi)
+                cname = rt_[1].name if rt_ else None
+                fresh = False
+                if isinstance(recv, ast.Name) and _owner_of_param(fi, recv.id) is None:
+                    ds = _defs(fi, recv.id)
+                    ctor_defs = [v for _s, v, how in ds if how == "assign" and isinstance(v, ast.Call) and (dotted(v.func) or "").split(".")[-1] in cls_by_name]
+                    if ds and len(ctor_defs) == len(ds):
+                        fresh = True
+                        cname = (dotted(ctor_defs[0].func) or "").split(".")[-1]
+                    else:
+                        inner = [c for _s, v, how in ds if v is not None for c in ast.walk(v) if isinstance(c, ast.Call) and (dotted(c.func) or "").split(".")[-1] in cls_by_name]
+                        if inner:
+                            cname = cname or (dotted(inner[0].func) or "").split(".")[-1]
+                if cname is None and isinstance(recv, ast.Name) and recv.id == "self" and fi.cls is not None:
+                    cname = fi.cls.name
+                if cname not in cls_by_name or t.attr not in anchors[cls_by_name[cname]]:
+                    if cname is None and t.attr.startswith("_lineno"):
+                        rep.error(R9, f"{fi.module.site(n)}: `{short(n, 60)}` writes a `{t.attr}` attribute of an object of unknown class")
+                    continue
+                k = f"{_key_owner(corpus, fi).fq}|{unparse(t)} = {short(getattr(n, 'value', n), 30)}"
+                site = fi.module.site(n)
+                if fresh:
+                    rep.ok(R9, k, site, "object constructed in this function: not yet shared")
+                    continue
+                # save/restore bracket: the store sits in (or right before) a try whose finally puts a saved value back
+                restored = False
+                for a in ancestors(n):
+                    if isinstance(a, ast.Try) and a.finalbody:
+                        for s_ in a.finalbody:
+                            for m in ast.walk(s_):
+                                for t2, tv2 in _assign_pairs(m):
+                                    if unparse(t2) == unparse(t) and isinstance(tv2, ast.Name):
+                                        saved = [(mm, v2) for mm in fi.local_nodes() for t3, v2 in _assign_pairs(mm) if isinstance(t3, ast.Name) and t3.id == tv2.id]
+                                        if len(saved) == 1 and unparse(saved[0][1]) == unparse(t) and saved[0][0].lineno < a.lineno:
+                                            restored = True
+                if restored:
+                    rep.ok(R9, k, site, "previous anchor saved before the try and restored in finally")
+                else:
+                    rep.violation(R9, k, site, f"`{short(n, 60)}` moves the line anchor of a {cname} that is not created here (it is shared with whoever else holds it): run_directive is re-entrant, so a directive nested in another one re-positions the state its enclosing directive is still using and nothing puts the old line back - everything the outer directive parses afterwards is located relative to the inner directive's line")
+    rep.expect_min(R9, 2, "anchor attributes of MockState / MockStateMachine / MockIncludeDirective")
+
+
+RULES = [r1_stamping, r2_line_kinds, r3_shift_once, r4_lossy_round_trip, r5_source_path, r6_body_offset_pairing, r7_start_accumulator, r8_line_free_cache, r9_anchor_fixed]
 
 
 # ---------------------------------------------------------------------------
@@ -2695,11 +2857,51 @@ def mutants(corpus: Corpus):
     else:
         out.append(("c04-parsed-directive-cached-per-text", "call of parse_directive_text not found"))
 
+    # ---- R9: the anchor of a shared mock state is not moved
+    f = base.func("DocutilsRenderer.run_directive")
+    st = find_stmt(f, lambda s: isinstance(s, ast.Assign) and isinstance(s.value, ast.Call) and unparse(s.value.func) == "MockState")
+    if st is not None:
+        ind_ = " " * st.col_offset
+        tn = unparse(st.targets[0])
+        add("c04-mock-state-shared-and-repositioned", R9, base, st, f"{tn} = getattr(self, '_shared_state', None) or {unparse(st.value)}\n{ind_}self._shared_state = {tn}\n{ind_}{tn}._lineno = position", "_lineno", canary=True)
+    else:
+        out.append(("c04-mock-state-shared-and-repositioned", "MockState construction in run_directive not found"))
+    f = mk.func("MockState.nested_parse")
+    c = _nrt_call(f)
+    a = arg_or_kw(c, 1, "lineno") if c else None
+    stc_ = get_cfg(f).stmt_of(c) if c is not None else None
+    if stc_ is not None and a is not None and "input_offset" in unparse(a):
+        src2 = splice(mk.src, a, "self._lineno")
+        wst = next((x for x in ancestors(c) if isinstance(x, ast.With)), None)
+        if wst is not None:
+            src2 = splice(src2, wst.items[0].context_expr, ast.get_source_segment(mk.src, wst.items[0].context_expr))  # no-op keeps offsets simple
+        first = f.node.body[1] if isinstance(f.node.body[0], ast.Expr) and isinstance(getattr(f.node.body[0], "value", None), ast.Constant) else f.node.body[0]
+        src2 = splice(src2, first, "self._lineno += input_offset\n" + " " * first.col_offset + ast.get_source_segment(mk.src, first))
+        out.append(Mutant("c04-state-anchor-advanced-in-place", R9, mk.rel, src2, expect="_lineno"))
+    else:
+        out.append(("c04-state-anchor-advanced-in-place", "nested_parse call shape changed"))
+
     # ---- R7
     f = mk.func("MockIncludeDirective.run")
     aug = find_stmt(f, lambda s: isinstance(s, ast.AugAssign) and unparse(s.target) == "startline" and any(isinstance(a_, ast.For) for a_ in ancestors(s)))
     add("c04-start-after-overwrites-start-line", R7, mk, aug, f"startline = {unparse(aug.value)}" if aug is not None else "", "overwrites", canary=True)
     add("c04-start-after-cut-not-counted", R7, mk, aug, "pass", "cut file_content")
+    # the counted prefix is shorter than the cut prefix (line breaks inside the marker are lost)
+    sl_ = next((x for x in ast.walk(aug.value) if isinstance(x, ast.Subscript) and isinstance(x.slice, ast.Slice) and x.slice.upper is not None), None) if aug is not None else None
+    if sl_ is not None and "len(" in unparse(sl_.slice.upper):
+        add("c04-start-after-marker-lines-not-counted", R7, mk, sl_.slice.upper, unparse(sl_.slice.upper).split(" + len(")[0], "cut file_content")
+    else:
+        out.append(("c04-start-after-marker-lines-not-counted", "start-after count is no longer a slice up to index + len(marker)"))
+    cut_ = None
+    if aug is not None:
+        sibs = getattr(parent(aug), "body", [])
+        cut_ = next((x for x in sibs if isinstance(x, ast.Assign) and unparse(x.targets[0]) == "file_content"), None)
+    if aug is not None and cut_ is not None and cut_.lineno > aug.lineno:
+        src2 = splice(mk.src, cut_, "file_content = after")
+        src2 = splice(src2, aug, "before, found, after = file_content.partition(split_on)\n" + " " * aug.col_offset + 'startline += before.count("\\n")')
+        out.append(Mutant("c04-start-after-partition-counts-before-only", R7, mk.rel, src2, expect="cut file_content = after"))
+    else:
+        out.append(("c04-start-after-partition-counts-before-only", "start-after block shape changed"))
     st = find_stmt(f, lambda s: isinstance(s, ast.Assign) and unparse(s.targets[0]) == "startline" and isinstance(s.value, ast.BoolOp))
     add("c04-start-line-count-reset", R7, mk, st.value if st is not None else None, "0", "overwrites")
     if st is not None:
